@@ -21,8 +21,9 @@ import core  # noqa: E402
 import lanes  # noqa: E402
 
 KNOWN_FILE = os.path.join(core.VERIF_DIR, 'known_findings.json')
-REPLAY_DIR = os.path.join(core.VERIF_DIR, 'out', 'replays')
-EVIDENCE_DIR = os.path.join(core.VERIF_DIR, 'evidence')
+REPLAY_DIR = os.environ.get('VERIF_REPLAY_DIR') or os.path.join(core.VERIF_DIR, 'out', 'replays')
+# sensitivity runs against a scratch tree (VERIF_REPO=...) must not overwrite the committed evidence / replays
+EVIDENCE_DIR = os.environ.get('VERIF_EVIDENCE_DIR') or os.path.join(core.VERIF_DIR, 'evidence')
 
 PROPS = {
     'C04': dict(engine='execsim', cfg={'mode': 'c04'}, quick=(700, 75), thorough=(12000, 1200),
@@ -60,6 +61,19 @@ def load_known(prop):
         return [], []
     data = json.load(open(KNOWN_FILE))
     return [f for f in data.get('findings', []) if f.get('property') == prop], data.get('fixed', [])
+
+
+def load_regress(prop):
+    """Committed, minimised plans of repaired defects (regress/*.json), re-executed on every run."""
+    d = os.path.join(core.VERIF_DIR, 'regress')
+    out = []
+    if os.path.isdir(d):
+        for name in sorted(os.listdir(d)):
+            if name.endswith('.json'):
+                rep = json.load(open(os.path.join(d, name)))
+                if rep.get('property') == prop:
+                    out.append((os.path.join(d, name), rep))
+    return out
 
 
 def same_class(res, key):
@@ -121,6 +135,9 @@ def do_replay(prop, path):
         return 2
     key = rep['violation']['key']
     hits = same_class(res, key)
+    if not hits and rep.get('regression'):
+        hits = res.get('mismatches') or []      # a directed regression plan fails on ANY mismatch
+        key = hits[0].get('key') if hits else key
     if hits:
         log('replayed %s: reproduced (%s)' % (path, key))
         log('  observed=%s expected=%s' % (hits[0].get('observed'), hits[0].get('expected')))
@@ -165,6 +182,22 @@ def explore(prop, tier, verif_seed, runs_override=None, budget_override=None, wo
             log(line)
         else:
             log('[%s] listed finding %s no longer reproduces on this tree' % (prop, f['id']))
+
+    # ---- 1b. directed regression plans: the minimised history/schedule/timeline of every defect that was
+    # repaired ("fixed:" entries suppress nothing — if one of them fails again it is a violation like any other)
+    regress_violations = []
+    regress_run = 0
+    for path, rep in load_regress(prop):
+        res = replay_in_fresh_process(engine_name, verif_seed, rep)
+        regress_run += 1
+        if 'harness_error' in res:
+            harness_errors.append('regression plan %s: %s' % (os.path.basename(path), str(res['harness_error'])[-500:]))
+            continue
+        if res.get('mismatches'):
+            m = res['mismatches'][0]
+            log('  regression plan %s fails again: %s' % (os.path.basename(path), engine.describe(rep['plan'], m)))
+            log('VIOLATION property=%s replay=%s' % (prop, path))
+            regress_violations.append(path)
 
     # ---- 2. seeded search
     pool = lanes.LanePool(engine_name, verif_seed, workers=workers)
@@ -340,7 +373,7 @@ def explore(prop, tier, verif_seed, runs_override=None, budget_override=None, wo
         for mn in minis.values():
             mn.stop()
 
-    if violations:
+    if violations or regress_violations:
         exit_code = 1
     if harness_errors:
         for h in harness_errors[:20]:
@@ -375,6 +408,8 @@ def explore(prop, tier, verif_seed, runs_override=None, budget_override=None, wo
         'determinism_selftest': {'reruns_in_fresh_lane': det_checked, 'digest_mismatches': det_bad},
         'clock_seam': 'LD_PRELOAD libsimclock.so',
         'components': COMPONENTS,
+        'regression_plans_replayed': regress_run,
+        'regression_plans_failing': [os.path.basename(p) for p in regress_violations],
         'known_findings_listed': [f['id'] for f in known],
         'known_findings_reproduced': [k for k, v in known_state.items() if v],
         'known_findings_hit_by_search': known_hits,
@@ -385,7 +420,7 @@ def explore(prop, tier, verif_seed, runs_override=None, budget_override=None, wo
     ev = {
         'property_id': prop, 'tier': tier, 'seed': verif_seed, 'level': 'exploration', 'coverage': cov,
         'assumptions': getattr(engine, 'ASSUMPTIONS', {}).get(P['cfg'].get('mode', ''), getattr(engine, 'ASSUMPTIONS', {}).get('', [])),
-        'wall_s': round(wall, 2), 'violations': len(violations),
+        'wall_s': round(wall, 2), 'violations': len(violations) + len(regress_violations),
     }
     os.makedirs(EVIDENCE_DIR, exist_ok=True)
     tmp = os.path.join(EVIDENCE_DIR, '%s.json.tmp' % prop)
@@ -393,7 +428,7 @@ def explore(prop, tier, verif_seed, runs_override=None, budget_override=None, wo
         json.dump(ev, fh, indent=1, sort_keys=True, default=str)
     os.replace(tmp, os.path.join(EVIDENCE_DIR, '%s.json' % prop))
     log('[%s] done: %d runs (%d/h), %d distinct non-trivial, %d violation(s), %d known-finding line(s), %d harness error(s), %.1fs' % (
-        prop, agg['runs'], cov['runs_per_hour'], len(agg['sigs']), len(violations), len(known_lines), len(harness_errors), wall))
+        prop, agg['runs'], cov['runs_per_hour'], len(agg['sigs']), len(violations) + len(regress_violations), len(known_lines), len(harness_errors), wall))
     return exit_code
 
 
